@@ -93,6 +93,10 @@ def h_int_dtype_cores(ctx):
     C[0] = C[0] * s
     acc = teneva.accuracy(C, A)                  # reference tensor with integer cores: ||sA - A|| / ||A|| = s - 1
     ctx.claim('accuracy_against_int_reference', ctx.eq(acc, s - 1))
+    # integer cores as the FIRST argument, the real factor in an inner core of the second: ||A - sA|| / ||sA||
+    C2 = [G * 1. for G in A]
+    C2[1] = C2[1] * s
+    ctx.claim('accuracy_of_int_tensor_against_float_reference', ctx.eq(teneva.accuracy(A, C2) * s, s - 1))
     ctx.claim('cores_keep_their_dtype', all(G.dtype.kind == 'i' for G in A + B))
 
 
@@ -287,6 +291,41 @@ def h_concrete_small_norm(ctx):
     ctx.claim('stabilised_rounding_equals_plain', bool(ok))
 
 
+def h_concrete_saturation_boundary(ctx):
+    """accuracy() next to its saturation bounds (real code, exact power-of-two
+    inputs; the distances are far outside what a float replay of the symbolic
+    instances can reach): Y1 = m 2^b Y2 for rank-1 Y2, so that the true relative
+    distance is m 2^b - 1 (resp. 1 - m 2^-b for the lower bound).  Representable
+    distances up to 2^500.4 are returned as they are; the saturation values
+    appear only beyond 2^502 (resp. below 2^-502)."""
+    def build(d, base, boost, m):
+        Y2 = [np.ones((1, 2, 1)) * base for _ in range(d)]
+        Y1 = [G.copy() for G in Y2]
+        q, k = abs(boost), 1
+        while q > 0:
+            s_ = min(q, 50)
+            Y1[k] = Y1[k] * 2. ** (s_ if boost > 0 else -s_)
+            q -= s_
+            k += 1
+        Y1[0] = Y1[0] * m
+        return Y1, Y2
+    ok_true, ok_sat = True, True
+    for d, base in [(16, 1.), (3000, 2. ** 7), (3000, 2. ** -9), (40, 2. ** 200)]:
+        for boost, m in [(400, 1.25), (499, 1.75), (500, 1.), (500, 1.25), (500, 1.3), (498, 1.9)]:
+            Y1, Y2 = build(d, base, boost, m)
+            got = teneva.accuracy(Y1, Y2)
+            ok_true = ok_true and bool(np.isfinite(got)) and abs(got / (m * 2. ** boost - 1.) - 1.) < 1e-9
+        for boost, m in [(503, 1.), (700, 1.25)]:
+            Y1, Y2 = build(d, base, boost, m)
+            ok_sat = ok_sat and teneva.accuracy(Y1, Y2) == 1.E+299
+        # the distance of Y2 from the much larger Y1, relative to Y1: 1 - 2^-b/m, no saturation involved
+        for boost, m in [(499, 1.75), (500, 1.), (500, 1.25)]:
+            Y1, Y2 = build(d, base, boost, m)
+            ok_true = ok_true and abs(teneva.accuracy(Y2, Y1) - 1.) < 1e-9
+    ctx.claim('representable_distance_returned_up_to_the_documented_bound', bool(ok_true))
+    ctx.claim('saturation_value_beyond_the_bound', bool(ok_sat))
+
+
 def instances(tier):
     out = []
     quick = tier == 'quick'
@@ -310,6 +349,7 @@ def instances(tier):
             out.append({'func': 'h_orth_stab_quasi', 'params': {'d': d, 'n': n, 'k': k}, 'opts': {'symbolic_signs': False}})
     out.append({'func': 'h_orth_stab_d2', 'params': {'n1': 2, 'n2': 2, 'r': 2}})
     out.append({'func': 'h_concrete_small_norm', 'params': {}, 'opts': {'concrete_only': True}})
+    out.append({'func': 'h_concrete_saturation_boundary', 'params': {}, 'opts': {'concrete_only': True}})
     for k in ([1, -3] if quick else [1, -1, 5, -7]):
         out.append({'func': 'h_rescale', 'params': {'shape': [1, 2, 1], 'k': k}})
     return out
